@@ -484,7 +484,19 @@ def derive_reads(w, P, rnd, per_isoform):
                 if indel and not any(b - a + 1 > 50 for a, b in ex[len(ex) // 2:len(ex) // 2 + 1]): indel = None
                 name = "%s|%s|%d" % (kind, tid, n); n += 1
                 w.add_read(name, g["chr"], ex, g["strand"], polya=polya, indel=indel, truth=dict(kind=kind, label=label, gene=g["id"], isoform=src, derived_from=tid))
+                if label == "pos" and a_rich_end(w.reads[-1]):
+                    # the (random) genome is A-rich at the read's 3' end or T-rich at its 5' end: the read carries a polyA-like signal that is not a tail at
+                    # T's 3' end, which the property does not cover - generated, not judged
+                    w.truth[name][-1].update(label="band", isoform=None, kind=kind + "/a-rich-end")
     return n
+
+def a_rich_end(read, win=16, need=10, span=80):
+    """independent and generous: some window of 16 aligned bases within the last 80 has >= 10 A (or within the first 80 >= 10 T)"""
+    seq = read["seq"]; cig = read["cigar"]
+    if cig and cig[0][0] == 4: seq = seq[cig[0][1]:]
+    if cig and cig[-1][0] == 4: seq = seq[:len(seq) - cig[-1][1]]
+    tail = seq[-span:].upper(); head = seq[:span].upper()
+    return any(tail[i:i + win].count("A") >= need for i in range(max(1, len(tail) - win + 1))) or any(head[i:i + win].count("T") >= need for i in range(max(1, len(head) - win + 1)))
 
 RAT_NAMES = ["unique", "noninformative", "intergenic", "ambiguous", "unique_minor_difference", "inconsistent", "inconsistent_non_intronic", "inconsistent_ambiguous", "suspended"]
 
